@@ -229,7 +229,7 @@ theorem headD_mem {α} {l : List α} (h : l ≠ []) (d : α) : l.headD d ∈ l :
 /-- **soundness and completeness on F1** (as sets of rows) -/
 theorem sound_complete_F1 (w : World) (sel : List Term) (c : SExpr)
     (hF : c.F1 = true) (hsel : selF1 sel = true) (hms : (sel.flatMap Term.vars).Nodup)
-    (hdt : DomTruthy w) (hnd : ∀ v, (w.dom v).Nodup)
+    (hnd : ∀ v, (w.dom v).Nodup)
     (hne : ∀ v ∈ SQuery.vars { sel := sel, cond := some c }, w.dom v ≠ [])
     (hlit : LitNodup (build c))
     {rows rows' : List (List Val)}
@@ -277,8 +277,8 @@ theorem sound_complete_F1 (w : World) (sel : List Term) (c : SExpr)
       ((rs.filter fun p => agreesB σ p.1).map (·.2)) = [pred σ] := by
     intro σ hσ
     have hsat : satE w (build c) σ = .ok (pred σ) := by rw [← satE_build]; exact hpred σ hσ
-    exact cover w hdt σ (build c) heF (hcovers σ hσ _ (fun u hu => (hvsm u).mpr (Or.inr hu))) hlit [] rs (pred σ)
-      (fun _ _ h => by cases h) (fun _ _ => rfl) (agreesB_nil σ) hrs hsat
+    exact cover w σ (build c) heF (hcovers σ hσ _ (fun u hu => (hvsm u).mpr (Or.inr hu))) hlit [] rs (pred σ)
+      (fun _ _ => rfl) (agreesB_nil σ) hrs hsat
   intro r
   constructor
   · -- soundness
